@@ -29,6 +29,52 @@ def judge(rec, opts):
     return []
 
 
+CONFUSED = [None, True, [1], {"a": 1}, float("inf"), float("nan"), "abc", "", 10 ** 30, -1, 1.5, range(3)]
+
+
+def judge_msg(rec, opts):
+    """Message templates (LiquidMsg.tla) with type-confused counts, contexts, plurals and messages:
+    whatever the data, only LiquidError subclasses may escape and every error must be printable."""
+    from liquid2 import Environment
+    from liquid2.exceptions import LiquidError
+    env = opts.get("_env")
+    if env is None:
+        env = opts["_env"] = Environment()
+    try:
+        t = env.from_string(rec["src"])
+    except LiquidError:
+        return []
+    out = []
+    kinds = "+".join(f"{it['k']}:{it['f']}" for it in rec["items"])[:60]
+    for name in ("n", "cx", "pl", "m"):
+        for v in CONFUSED:
+            data = {"m": "Hello", "pl": "Hellos", "cx": "vctx", "n": 2, "yes": True, "no": False}
+            data[name] = v
+            for mode in ("sync", "async"):
+                try:
+                    if mode == "sync":
+                        t.render(**data)
+                    else:
+                        import asyncio
+                        asyncio.run(t.render_async(**data))
+                except LiquidError as e:
+                    p = replay.error_probe(e)
+                    if p:
+                        out.append((f"error-probe:{p}:translate:{kinds}", {"src": rec["src"], "data": repr(data)}))
+                except Exception as e:  # noqa: BLE001
+                    out.append((f"render-raised-{type(e).__name__}@{replay.raise_site(e)}", {"src": rec["src"], "data": repr(data), "mode": mode}))
+                if out:
+                    return out[:1]
+    return out
+
+
+def _judge_msg(rec, opts):
+    return judge_msg(rec, _MOPTS)
+
+
+_MOPTS: dict = {}
+
+
 def signature(b) -> str:
     tr = b["trace"]
     return b["clause"]
@@ -66,6 +112,18 @@ def check(tier: str) -> int:
             continue
         try:
             gen.replay_file(chk, r.workdir / "out.ndjson", "harness.c02", "judge")
+        finally:
+            r.cleanup()
+    from . import tlc
+    for variant in ("tags", "filters"):
+        r = tlc.run("LiquidMsg", tlc.cfg_text(constants={"MaxTop": "1", "Focus": f'"confused-msg-{variant}"', "Variant": f'"{variant}"'},
+                                              invariants=["Export"]), tag=f"confused-msg-{variant}", timeout=3000)
+        try:
+            if r.error:
+                chk.machinery_error = r.error
+                continue
+            chk.tlc(r, f"message templates with type-confused data ({variant})")
+            gen.replay_file(chk, r.workdir / "out.ndjson", "harness.c02", "_judge_msg")
         finally:
             r.cleanup()
     return chk.finish()
